@@ -881,6 +881,9 @@ func ReviseForFreeSectors(fc types.V2FileContract, prices HostPrices, newRoot ty
 func ReviseForAppendSectors(fc types.V2FileContract, prices HostPrices, root types.Hash256, appended uint64) (types.V2FileContract, Usage, error) {
 	if prices.TipHeight > fc.ExpirationHeight {
 		return fc, Usage{}, fmt.Errorf("contract has expired (expiration height %d, current height %d)", fc.ExpirationHeight, prices.TipHeight)
+	} else if prices.TipHeight >= fc.ProofHeight {
+		// consensus accepts no revision in a block above the proof height
+		return fc, Usage{}, fmt.Errorf("contract can no longer be revised (proof height %d, current height %d)", fc.ProofHeight, prices.TipHeight)
 	}
 	growth := appended - min(appended, (fc.Capacity-fc.Filesize)/SectorSize)
 	if appended > (math.MaxUint64-fc.Filesize)/SectorSize || growth > (math.MaxUint64-fc.Capacity)/SectorSize {
